@@ -5,6 +5,8 @@
 // registry must hand every live thread its own sub-queue.  Verdict from values only: after each round the quiescent queue is
 // drained and every value pushed in that round must come out exactly once (no loss, duplicate, invented value).
 // usage: e0_fifo_churn <rounds> <pushers> <per_pusher>
+//        e0_fifo_churn bulk <rounds> <consumers> <items> <producers>   (batch consumers on the raw third-party queue, see bulk_main)
+#include <pika/concurrency/concurrentqueue.hpp>
 #include <pika/schedulers/lockfree_queue_backends.hpp>
 
 #include <atomic>
@@ -13,6 +15,7 @@
 #include <cstdio>
 #include <cstdlib>
 #include <memory>
+#include <string>
 #include <thread>
 #include <unistd.h>
 #include <vector>
@@ -27,8 +30,98 @@ static void on_crash(int sig)
     _exit(0);
 }
 
+// "bulk": the batch overloads of the third-party queue (try_dequeue_bulk; pika's back-ends only use enqueue / try_dequeue /
+// size_approx, but the header is pika's container and the property speaks about every operation mix).  A few producers
+// feed values in small bursts, consumers poll the nearly empty queue for batches of 2..16 (every third consumer takes
+// single elements), so that batch consumers regularly compete for the same few elements.  Verdict from values only: when
+// the producers are done and every consumer has seen the queue empty many times, the quiescent queue is drained (single
+// and batch pops); every value must have come out exactly once and the drained queue must report size 0.
+static int bulk_main(int rounds, int consumers, long items, int producers)
+{
+    using queue_type = pika::concurrency::detail::ConcurrentQueue<std::uint64_t>;
+    long lost = 0, dup = 0, invented = 0, bad_rounds = 0, stuck = 0;
+    for (int r = 0; r < rounds; ++r)
+    {
+        queue_type q;
+        std::unique_ptr<std::atomic<unsigned char>[]> seen(new std::atomic<unsigned char>[std::size_t(items)]);
+        for (long i = 0; i < items; ++i) seen[std::size_t(i)].store(0, std::memory_order_relaxed);
+        std::atomic<long> inv{0};
+        std::atomic<int> prod_done{0}, ready{0};
+        int const nthreads = consumers + producers;
+        auto rec = [&](std::uint64_t v) {
+            if (v >= std::uint64_t(items)) inv.fetch_add(1);
+            else seen[std::size_t(v)].fetch_add(1, std::memory_order_relaxed);
+        };
+        auto together = [&] {
+            ready.fetch_add(1);
+            while (ready.load() != nthreads) {}
+        };
+        std::vector<std::thread> ts;
+        for (int p = 0; p < producers; ++p)
+            ts.emplace_back([&, p] {
+                together();
+                std::uint32_t g = 12345u + 977u * std::uint32_t(p) + 31u * std::uint32_t(r);
+                // producer p owns the values congruent p modulo `producers`
+                for (long i = p; i < items;)
+                {
+                    g = g * 1664525u + 1013904223u;
+                    int burst = 1 + int((g >> 24) % 5);
+                    for (int k = 0; k < burst && i < items; ++k, i += producers) q.enqueue(std::uint64_t(i));
+                    std::uint32_t spins = (g >> 16) % 64;
+                    for (std::uint32_t sp = 0; sp < spins; ++sp) asm volatile("pause");
+                }
+                prod_done.fetch_add(1);
+            });
+        for (int c = 0; c < consumers; ++c)
+            ts.emplace_back([&, c] {
+                together();
+                std::uint64_t buf[16];
+                std::size_t const batch = (c % 3 == 2) ? 1 : std::size_t(2 + (c * 5 + r) % 15);
+                int empty_after_done = 0;
+                while (empty_after_done < 1000)
+                {
+                    bool done = prod_done.load() == producers;
+                    std::size_t n = batch == 1 ? std::size_t(q.try_dequeue(buf[0]) ? 1 : 0) : q.try_dequeue_bulk(buf, batch);
+                    for (std::size_t i = 0; i < n; ++i) rec(buf[i]);
+                    if (n == 0 && done) ++empty_after_done;
+                    else if (n != 0) empty_after_done = 0;
+                }
+            });
+        for (auto& t : ts) t.join();
+        // quiescent: whatever is still inside must be handed out by a pop
+        std::uint64_t v = 0, buf[16];
+        while (q.try_dequeue(v)) rec(v);
+        for (std::size_t n; (n = q.try_dequeue_bulk(buf, 16)) != 0;)
+            for (std::size_t i = 0; i < n; ++i) rec(buf[i]);
+        long l = 0, d = 0;
+        for (long i = 0; i < items; ++i)
+        {
+            unsigned char c = seen[std::size_t(i)].load(std::memory_order_relaxed);
+            if (c == 0) ++l;
+            else if (c > 1) ++d;
+        }
+        lost += l;
+        dup += d;
+        invented += inv.load();
+        stuck += long(q.size_approx());
+        if (l || d || inv.load() || q.size_approx() != 0) ++bad_rounds;
+    }
+    if (bad_rounds)
+        std::printf("churn FAIL bulk rounds=%d bad_rounds=%ld pushed=%ld lost=%ld duplicated=%ld invented=%ld left_in_drained_queue=%ld\n", rounds,
+            bad_rounds, long(rounds) * items, lost, dup, invented, stuck);
+    else
+        std::printf("churn ok bulk rounds=%d pushed=%ld\n", rounds, long(rounds) * items);
+    return 0;
+}
+
 int main(int argc, char** argv)
 {
+    std::signal(SIGSEGV, on_crash);
+    std::signal(SIGBUS, on_crash);
+    std::signal(SIGABRT, on_crash);
+    if (argc > 1 && std::string(argv[1]) == "bulk")
+        return bulk_main(argc > 2 ? std::atoi(argv[2]) : 4, argc > 3 ? std::atoi(argv[3]) : 6, argc > 4 ? std::atol(argv[4]) : 100000,
+            argc > 5 ? std::atoi(argv[5]) : 1);
     int rounds = argc > 1 ? std::atoi(argv[1]) : 12;
     int pushers = argc > 2 ? std::atoi(argv[2]) : 16;
     long per = argc > 3 ? std::atol(argv[3]) : 4000;
